@@ -144,6 +144,19 @@ def instances(tier):
             make_nosym=(lambda n=n: SportsTournamentSchedulingProblem(n, False)) if n <= 4 else None,
             validator=S.v_tournament(n), limit=1 if n >= 8 else (200 if n == 6 else None),
             cfgs=[dict(var_heuristic_idx=H.VAR_HEURISTIC_SMALLEST_DOMAIN)] + (generic[:2] if n <= 4 else []))
+    # eight and more teams: the first 60 schedules under several search strategies, with and without symmetry breaking (the
+    # per-period cardinality constraints only start to matter there, and the first schedule of the README's strategy hides a lot)
+    for n in ([8] if q else [8, 10]):
+        for sym in (True, False):
+            add(name="tournament-%d-%s-many" % (n, "sym" if sym else "nosym"), family="sports_tournament",
+                make=lambda n=n, sym=sym: SportsTournamentSchedulingProblem(n, sym), validator=S.v_tournament(n),
+                limit=60 if n == 8 else 6,
+                cfgs=([dict(var_heuristic_idx=H.VAR_HEURISTIC_SMALLEST_DOMAIN), dict(),
+                       dict(var_heuristic_idx=H.VAR_HEURISTIC_SMALLEST_DOMAIN, dom_heuristic_idx=H.DOM_HEURISTIC_MAX_VALUE)]
+                      # (greatest-domain / split-low needs minutes for 60 schedules once the symmetries are left in)
+                      + ([dict(var_heuristic_idx=H.VAR_HEURISTIC_GREATEST_DOMAIN,
+                               dom_heuristic_idx=H.DOM_HEURISTIC_SPLIT_LOW)] if sym else []))
+                if n == 8 else [dict(var_heuristic_idx=H.VAR_HEURISTIC_SMALLEST_DOMAIN)])
     from nucs.examples.knapsack.knapsack_problem import KnapsackProblem
 
     rnd = random.Random(7)
